@@ -213,20 +213,20 @@ func (sc *cpxScript) apply(w *engcWorld, b *engcBlockBuilder) {
 	if sc.App != 0 {
 		switch b.Round {
 		case 3:
-			call(rich, "ab", "bput", "ab", "cab")
-			call(rich, "x", "bput", "x", "cx")
+			call(rich, "ab", "bput", "ab", "Qab")
+			call(rich, "x", "bput", "x", "Qx")
 			// zero-length boxes (kv value []byte{}, not nil) and a box that becomes zero-length later. The steps of each
 			// box are far enough apart that a first-stage round (a forced flush boundary) lies between them: for box "e"
 			// on every node (8 rounds), for "z" and "y" on the nodes whose first-stage rounds are the multiples of 4.
 			call(rich, "e", "bcreate", "e", string(engcItob(0)))
 			call(rich, "z", "bcreate", "z", string(engcItob(0)))
-			call(rich, "y", "bput", "y", "cy")
+			call(rich, "y", "bput", "y", "Qy")
 		case 6:
 			call(rich, "x", "bdel", "x")
 		case 7:
 			call(rich, "z", "bresize", "z", string(engcItob(2))) // empty -> non-empty
 		case 8:
-			call(rich, "x", "bput", "x", "cx2") // re-created with another value
+			call(rich, "x", "bput", "x", "Qx2") // re-created with another value
 		case 9:
 			call(rich, "y", "bresize", "y", string(engcItob(0))) // non-empty -> empty
 		case 12:
@@ -257,7 +257,7 @@ func (sc *cpxScript) apply(w *engcWorld, b *engcBlockBuilder) {
 }
 
 // cpxScriptedBlock = StepBlock with the scripted transactions of that round in front of the drawn groups.
-func cpxScriptedBlock(w *engcWorld, t *rapid.T, sc *cpxScript, maxGroups int) *engcBlockInfo {
+func cpxScriptedBlock(w *engcWorld, t *rapid.T, sc *cpxScript, maxGroups int, excluded func(string)) *engcBlockInfo {
 	b := w.BeginBlock(t)
 	if sc != nil {
 		sc.apply(w, b)
@@ -267,7 +267,9 @@ func cpxScriptedBlock(w *engcWorld, t *rapid.T, sc *cpxScript, maxGroups int) *e
 		ng = rapid.IntRange(1, maxGroups).Draw(t, "ngroups")
 	}
 	b.RandomGroups(t, ng)
-	return b.Finish(t)
+	info := b.Finish(t)
+	cpxSkipOnKvCollision(t, w, excluded)
+	return info
 }
 
 // ---------------------------------------------------------------------------------------------------------------
@@ -386,8 +388,50 @@ func cpxRootOf(leaves [][]byte) (crypto.Digest, error) {
 	return trie.RootHash()
 }
 
-// cpxModelRoot = cpxRootOf(cpxModelLeaves).
+// cpxKvCollision finds two kv pairs of the snapshot with key1||value1 == key2||value2 (the known F1 class occurring
+// naturally in a state: both pairs have the same trie leaf).
+func cpxKvCollision(s *engcSnap) (k1, k2 string, found bool) {
+	seen := map[string]string{}
+	for _, k := range s.KvKeys("") {
+		cat := k + string(s.Kv[k])
+		if other, ok := seen[cat]; ok {
+			return other, k, true
+		}
+		seen[cat] = k
+	}
+	return "", "", false
+}
+
+// cpxSkipOnKvCollision ends the case (rapid Skip, counted as excluded) when the state after the latest block holds two kv
+// pairs with the same trie leaf. Such a state is an instance of the known class kv-boundary-shift arising inside one
+// ledger (e.g. box "ab" = "c" next to a zero-length box "abc" of the same application): the balances trie then holds
+// one leaf for two pairs and what it holds after one of them is deleted depends on the order of the trie operations,
+// so neither the set-of-leaves model nor the pairwise comparison applies. Call after every block.
+func cpxSkipOnKvCollision(t *rapid.T, w *engcWorld, excluded func(string)) {
+	if k1, k2, found := cpxKvCollision(w.Model.Tip()); found {
+		excluded("history reaches a state with two kv pairs of equal key||value (kv-boundary-shift inside one ledger)")
+		t.Skipf("round %d: kv pairs %q and %q have the same trie leaf (known class kv-boundary-shift)", w.Model.Latest(), k1, k2)
+	}
+}
+
+// cpxErrKvCollision: the model state holds two kv pairs with the same leaf; no root can be computed for it.
+type cpxErrKvCollision struct {
+	Round  basics.Round
+	K1, K2 string
+	V1, V2 []byte
+}
+
+func (e *cpxErrKvCollision) Error() string {
+	return fmt.Sprintf("state of round %d holds kv pairs %q=%x and %q=%x with the same leaf (key||value equal: known class kv-boundary-shift)", e.Round, e.K1, e.V1, e.K2, e.V2)
+}
+
+// cpxModelRoot = cpxRootOf(cpxModelLeaves). A *cpxErrKvCollision error means the state itself contains an F1 collision.
 func cpxModelRoot(m *engcModel, r basics.Round) (crypto.Digest, int, error) {
+	if s := m.At(r); s != nil {
+		if k1, k2, found := cpxKvCollision(s); found {
+			return crypto.Digest{}, 0, &cpxErrKvCollision{Round: r, K1: k1, K2: k2, V1: s.Kv[k1], V2: s.Kv[k2]}
+		}
+	}
 	leaves, err := cpxModelLeaves(m, r)
 	if err != nil {
 		return crypto.Digest{}, 0, err
